@@ -719,7 +719,7 @@ func main() {
 	r.Extra["oracle_requests"] = o.N
 	r.Extra["parallel_child_processes_started"] = parChildrenStarted
 	r.Finish("corpus (sighash.json, boundary transactions, F1 witness), then random transactions (0..n inputs/outputs, CompactSize boundaries 252/253, random version/locktime/sequence) with a hash-type sweep per transaction (all 256 byte values in thorough, edge set + random in quick, 4-byte types for legacy/BIP143) for the three algorithms on ONE object, call-order permutations and parallel callers; a case is distinct by (algorithm, input, hash type, hash of transaction+script) and non-trivial when the input index is in range",
-		"Every digest of the real code is compared with an independent reference (ref.go) and with the Lean model; the model's preimage with the reference preimage; results on a shared object with results on a fresh object; undefined taproot cases are attacked with a real BIP340 signature over the digest handed out; end-to-end spends (P2PKH/bare with code separators and embedded signatures, P2WPKH/P2WSH, taproot key and script path with annex) are signed by the independent signer over the reference digest and must verify, and must not verify over any other digest.")
+		"Every digest of the real code is compared with an independent reference (ref.go) and with the Lean model; the model's preimage with the reference preimage; results on a shared object with results on a fresh object; undefined taproot cases are attacked with a real BIP340 signature over the digest handed out; end-to-end spends (P2PKH/bare with code separators and embedded signatures - including pre-BIP66 spends whose script code embeds its own lax-DER padded signature as a push of 75/76/77/…/255/256 bytes -, P2WPKH/P2WSH, taproot key and script path with annex) are signed by the independent signer over the reference digest and must verify, and must not verify over any other digest; the real delSig (verif hook) is compared with the reference FindAndDelete and the model at every push-opcode boundary; concurrent callers run in a child process so that a crash, a hang or a wrong digest under concurrency is a reported failure of the transaction and call list at hand.")
 }
 
 func mustBigHex(s string) []byte { return unhx(s) }
